@@ -11,6 +11,12 @@ TRUST = ("Trusted base: go/types, go/ssa and the VTA/CHA call graphs of golang.o
 
 # id -> (technique, claim text, design_ref)
 CLAIMED = {
+ "C11": ("SSA call-site, dominance and path rules over tryParsePackage, handleSpecialPackage, the hook lists, NextPackageUntil and EEDError",
+         "Decides the structural conditions of exactly-once reporting: hooks are dispatched from one place only, after a complete parse and before delivery; environment changes and informational messages never reach the consumer; each member/message reaches the hook list once with its own values under one mutex; every callback-error return carries the collected messages and still wraps the callback's error. Histories and packetisations are not explored (retry safety is C02/C07).",
+         "DESIGN.md §3 C11"),
+ "C12": ("SSA must-lockset analysis (E-LOCK) with a guarded-by table; routing, stamping and registration rules by value identity; assertion satisfiability",
+         "Decides lock discipline for every access to the shared channel map, id counter, closed flag and hook slices (all access sites, exhaustively), that packets are routed to the channel named in their own header, that outgoing packets are stamped with the channel id and consecutive packet numbers modulo 256, that registration/removal use the channel's own id, and that the set-up acknowledgement can be recognised. Interleavings are not explored; the race detector is another family.",
+         "DESIGN.md §3 C12"),
  "C03": ("SSA guard/path rules on tryParsePackage, WritePacket, NextPackageUntil, isDoneFinal, Reset; vacuous-mask detection through constant values",
          "Decides structural necessary conditions of response delimiting: exact, non-vacuous final-DONE tests, the path condition of the synthetic DONE(FINAL), lastPkgRx tracking every delivery, rx reset at EOM, draining on every callback-error path and in nil-callback mode, and the tx reset. Histories (what the previous response left behind) and packetisations are not explored.",
          "DESIGN.md §3 C03"),
